@@ -85,7 +85,7 @@ def entry_accessors(u, props=("C01", "C03", "C05", "C13", "C17"), with_token=Tru
         f = u.real_fn(CP, "insertable_reference_string", scope=r"impl LogRefEntry\b", props=("C03", "C12", "C13", "C17"), owner="LogRefEntry")
         rules.sig(f, ret="r")
         rules.r5_format(f, kinds={"reference_id": "u32"}, min_count=1)
-        f.ensures.append(("C03.token", "r@ =~= token_chars(*self, reference_id)"))
+        f.ensures.append(("C03.token", "r@ =~= token_chars(*self, reference_id as int)"))
         f.ensures.append(("C12.inserted", "self.insertion_prefix.is_none() && self.insertion_suffix.is_none() ==>\n"
                           "            r@ =~= seq!['[', 'r', 'e', 'f', ':', ' '] + dec(reference_id as nat) + seq![']', ' ']"))
         # hint: string literals are their character sequences
